@@ -74,6 +74,9 @@ EXPECTED_PROBES = [
     "probe.sttl_read_of_expired_entry", "probe.sttl_coalesced_on_expired_entry",
     "probe.read_exactly_at_soft_ttl", "probe.read_exactly_at_hard_ttl", "probe.read_1us_from_zone_boundary",
     "probe.sttl_refresh_in_flight", "probe.audit_completed",
+    # behaviour reachable since the C16 fixes were committed
+    "probe.dirty_eviction_written_back", "probe.flush_kept_redirtied_key", "probe.fill_skipped_newer_entry",
+    "probe.sttl_coalesced_reader_refetched",
 ]
 SHRINK_SKIP = ("family", "klass")
 
@@ -164,27 +167,26 @@ def gen(rng, tier):
         wb = rng.random() < 0.5
         sc["wb"] = wb
         sc["policy"] = _policy(rng)
+        own = False
         if not wb:
-            own = rng.random() < 0.35
+            # (the own-keys avoidance class existed for the miss-fill races repaired in b0e4dcd / 2877c36: folded back)
             sc["cap"] = rng.randrange(1, 5)
-            sc["klass"] = "cs-wt-own-keys" if own else "cs-wt"
+            sc["klass"] = "cs-wt"
             weights = {"get": 10, "put": 7, "delete": 3, "inval": 2, "inval_all": 0.4, "flush": 0.3}
         else:
-            # avoidance knobs for the recorded write-back findings
+            # avoidance knobs for the two write-back findings that are still recorded: invalidate of a dirty entry,
+            # and a flush write that is still in flight when a delete / eviction write-back of the key lands.
+            # (no-eviction and own-keys classes existed for defects repaired in 40ee718 / 2877c36 / 1b301da: folded back;
+            # every write-back class now runs under capacity pressure)
             r = rng.random()
-            roomy, noinv, own, lateflush = False, False, False, False
-            if r < 0.34:
+            noinv, lateflush = False, False
+            if r < 0.40:
                 sc["klass"] = "cs-wb"
-            elif r < 0.50:
-                roomy, sc["klass"] = True, "cs-wb-no-eviction"
-            elif r < 0.64:
-                roomy, noinv, sc["klass"] = True, True, "cs-wb-no-eviction-no-invalidate"
-            elif r < 0.80:
-                roomy, noinv, own, sc["klass"] = True, True, True, "cs-wb-no-eviction-no-invalidate-own-keys"
+            elif r < 0.70:
+                noinv, sc["klass"] = True, "cs-wb-no-invalidate"
             else:
-                roomy, noinv, own, lateflush = True, True, True, True
-                sc["klass"] = "cs-wb-avoid-all-known"
-            sc["cap"] = nk + rng.randrange(0, 2) if roomy else rng.randrange(1, 5)
+                noinv, lateflush, sc["klass"] = True, True, "cs-wb-no-invalidate-flush-at-quiescence"
+            sc["cap"] = rng.randrange(1, 5)
             weights = {"get": 10, "put": 8, "delete": 2.5, "inval": 0 if noinv else 2,
                        "inval_all": 0 if noinv else 0.4, "flush": 0 if lateflush else 2.5}
         sc["clients"] = _clients(rng, fam, nk, {k: v for k, v in weights.items() if v}, own=own)
@@ -207,21 +209,14 @@ def gen(rng, tier):
         soft = min(hard, rng.choice((0, 200, 500, 1000, hard // 2, hard - 100, hard)))
         sc["soft"], sc["hard"] = soft, hard
         sc["cap"] = rng.choice((1, 1, 2, 2, 3, 4, None))
-        r = rng.random()
         weights = {"get": 14, "put": 5, "inval": 1.5, "inval_all": 0.3}
-        if r < 0.45:
+        # (the avoidance class for the coalesced-reader defects repaired in 85a7b5a is folded back; what remains is the
+        # fault-injecting class -- writers behind the cache's back -- and the clean class)
+        if rng.random() < 0.6:
             sc["klass"] = "sttl-external-writers"
             weights.update({"xput": 2.5, "xdel": 2.5})
-        elif r < 0.7:
-            sc["klass"] = "sttl-cache-api-only"
         else:
-            # avoidance: a key never leaves the cache (no invalidation, room for every key) and is never deleted
-            # behind the cache's back, so a reader that joins an in-flight refresh always finds a refreshed entry
-            sc["klass"] = "sttl-avoid-all-known"
-            sc["cap"] = rng.choice((None, nk, nk + 1))
-            weights = {"get": 14, "put": 5}
-            if rng.random() < 0.5:
-                weights["xput"] = 3
+            sc["klass"] = "sttl-cache-api-only"
         r, c = sc["lat"]["r"], sc["lat"]["c"]
         extra = [g for g in (soft, hard, soft - r, hard - r, hard - c, soft - c, hard - r - c, hard + 100, hard - 100) if g >= 0]
         sc["clients"] = _clients(rng, fam, nk, weights, own=False, extra_gaps=tuple(extra))
